@@ -133,6 +133,28 @@ def _batch_serialised(f, ty):
     return ty.startswith('alloc::vec::Vec<crux_core::bridge::Request<') and any(True for _ in f.calls('erased_serde::ser::Serialize::erased_serialize'))
 
 
+def _iterator_exhausted(f, bb, ty):
+    """an owning iterator over payload values may be dropped once next() has returned None: the drop is reachable only through the
+    None edge of a next() on that same iterator (a `break` or `?` inside the loop would make it reachable otherwise)"""
+    if not re.match(r'^(alloc::vec::into_iter::IntoIter|core::iter::adapters::\w+::\w+|alloc::vec::drain::Drain)<', ty):
+        return False
+    t = f.blocks[bb]['t']
+    place = t.get('d') if t['k'] == 'drop' else None
+    if place is None or place.get('p'):
+        return False
+    loc = place['l']
+    none_edges = []
+    for nb, nt in f.calls('core::iter::traits::iterator::Iterator::next'):
+        def borrows_loc(op):
+            # origins() looks through borrows and reborrows: the receiver denotes the dropped iterator when both have the same origins
+            mine = set((o.kind, getattr(o, 'bb', None), tuple(o.suffix or [])) for o in origins(f, {'l': loc, 'p': []}))
+            theirs = set((o.kind, getattr(o, 'bb', None), tuple(o.suffix or [])) for o in origins(f, op))
+            return bool(mine) and mine == theirs and all(k_ == 'call' for k_, _, _ in mine)
+        if borrows_loc(nt['args'][0]):
+            none_edges += none_edges_of(f, nb, nt)
+    return bool(none_edges) and bb not in f.reachable([0], removed_edges=none_edges)
+
+
 def check_linear(rep, crate, cfg, rid='R01.c', only=None):
     counts = {}
     table = {(_noidx(k[0]), k[1]): v for k, v in DROP_TABLE.items()}
@@ -143,7 +165,15 @@ def check_linear(rep, crate, cfg, rid='R01.c', only=None):
     for f, bb, ty, how in payload_drops(crate):
         if only is not None and not only(f, ty):
             continue
+        if how == 'drop' and _iterator_exhausted(f, bb, ty):
+            rep.ok(rid, '%s|drops exhausted %s@%s' % (_noidx(f.kpath), ty, cfg), 'the iterator is dropped only after next() returned None')
+            continue
         key = (_noidx(f.kpath), ty)
+        if f.blocks[bb].get('inl') and re.match(r'^[A-Z]\w*$', ty):
+            # a drop inside a spliced generic helper names the helper's type parameter: it stands for the one plain payload row of this function
+            rows = [k2 for k2 in table if k2[0] == key[0] and not re.match(r'^(core::option::Option|core::result::Result|alloc::vec::Vec)<', k2[1])]
+            if len(rows) == 1:
+                key = rows[0]
         counts.setdefault(key, []).append((f, bb, how))
     for key, sites in sorted(counts.items()):
         fk, ty = key
@@ -393,66 +423,82 @@ def _moves_from(fn, operand, scrut, variant, depth=0):
     return False
 
 
+def queue_reads(fn, field):
+    """reads of the channel in `self.<field>` with the edges taken when the read found it empty:
+    try_recv -> Err edge, next() over try_iter() -> None edge, is_empty -> true edge.  Returns [(block, [empty edges])]"""
+    out = []
+    for bb, t in fn.calls('crossbeam_channel::channel::Receiver::try_recv'):
+        if field in field_of_receiver(fn, t['args'][0]):
+            res = t['d']['l']
+            edges = []
+            for sb, st in fn.terms('switch'):
+                if any(o.kind == 'rvalue' and o.stmt['rv']['k'] == 'discr' and o.stmt['rv']['a']['l'] == res and not o.stmt['rv']['a']['p'] for o in origins(fn, st['a'])):
+                    edges.append((sb, next((b_ for v, b_ in st['arms'] if v == 1), st['otherwise'])))  # Err = 1
+            out.append((bb, edges))
+    iters = {}
+    for bb, t in fn.calls('crossbeam_channel::channel::Receiver::try_iter'):
+        if field in field_of_receiver(fn, t['args'][0]):
+            iters[bb] = t
+    for bb, t in fn.calls('core::iter::traits::iterator::Iterator::next'):
+        src = origins(fn, t['args'][0], extra_identity=[('core::iter::traits::collect::IntoIterator::into_iter', 0)])
+        if src and all(o.kind == 'call' and o.bb in iters for o in src):
+            out.append((bb, none_edges_of(fn, bb, t)))
+    for bb, t in fn.calls('crossbeam_channel::channel::Receiver::is_empty'):
+        if field in field_of_receiver(fn, t['args'][0]):
+            res = t['d']['l']
+            edges = []
+            for sb, st in fn.terms('switch'):
+                if any(o.kind == 'call' and o.bb == bb and not o.suffix for o in origins(fn, st['a'])):
+                    edges.append((sb, st['otherwise']))
+            out.append((bb, edges))
+    return out
+
+
 def check_executor_loops(rep, core):
     f = single(rep, 'R01.e', core, 'crux_core::capability::executor::QueuingExecutor::run_all')
     if f is not None:
-        recvs = [(bb, t, field_of_receiver(f, t['args'][0])) for bb, t in f.calls('crossbeam_channel::channel::Receiver::try_recv')]
-        spawn_r = [bb for bb, t, fl in recvs if 'spawn_queue' in fl]
-        ready_r = [bb for bb, t, fl in recvs if 'ready_queue' in fl]
+        spawn_reads = queue_reads(f, 'spawn_queue')
+        ready_reads = queue_reads(f, 'ready_queue')
         runs = [(bb, t) for bb, t in f.calls('QueuingExecutor::run_task')]
-        ok_shape = len(spawn_r) == 1 and len(ready_r) == 1 and len(runs) == 2
-        rep.expect('R01.e', ok_shape and spawn_r[0] in f.reachable_after(ready_r[0]) and ready_r[0] in f.reachable_after(spawn_r[0]),
-                   'run_all-one-loop', 'the spawn queue and the ready queue are read inside one common loop',
+        spawn_r = [bb for bb, e in spawn_reads]
+        ready_r = [bb for bb, e in ready_reads]
+        ok_shape = bool(spawn_r) and bool(ready_r) and len(runs) >= 2 and all(e for _, e in spawn_reads + ready_reads)
+        common = ok_shape and any(s_ in f.reachable_after(r_) for s_ in spawn_r for r_ in ready_r) and any(r_ in f.reachable_after(s_) for s_ in spawn_r for r_ in ready_r)
+        rep.expect('R01.e', common, 'run_all-one-loop', 'the spawn queue and the ready queue are read inside one common loop',
                    'run_all no longer reads both queues inside one loop (%d/%d reads, %d run_task calls)' % (len(spawn_r), len(ready_r), len(runs)))
         if ok_shape:
-            # the flag: a bool local assigned const true somewhere and tested by a switch that guards the exit
             rets = f.return_blocks()
-            flag = None
-            for bb, t in f.terms('switch'):
-                a = t['a']
-                if 'l' not in a:
-                    continue
-                for o in origins(f, a):
-                    pass
-                cands = [d for d in f.defs(a['l']) if d[0] == 'stmt' and d[3]['rv']['k'] == 'use' and 'l' in d[3]['rv']['a']]
-                for d in cands:
-                    l = d[3]['rv']['a']['l']
-                    trues = [x for x in f.defs(l) if x[0] == 'stmt' and x[3]['rv']['k'] == 'use' and x[3]['rv']['a'].get('v') == 1]
-                    falses = [x for x in f.defs(l) if x[0] == 'stmt' and x[3]['rv']['k'] == 'use' and x[3]['rv']['a'].get('v') == 0]
-                    if trues and falses:
-                        false_edge = [(bb, b) for v, b in t['arms'] if v == 0]
-                        if false_edge and all(r not in f.reachable([0], removed_edges=false_edge) for r in rets):
-                            flag = (l, [x[1] for x in trues], [x[1] for x in falses])
-            if flag is None:
-                rep.bad('R01.e', 'run_all-flag', 'run_all: no progress flag guards the only exit of the loop')
-            else:
-                l, true_bbs, false_bbs = flag
-                # after running a spawned task the flag is set before the next read of either queue
-                for rb, rt in runs:
-                    res = rt['d']['l']
-                    sw = [(bb, t) for bb, t in f.terms('switch') if any(
-                        o.kind == 'rvalue' and o.stmt['rv']['k'] == 'discr' and o.stmt['rv']['a']['l'] == res for o in origins(f, t['a']))]
-                    if not sw:
-                        ok = f.all_paths_pass(rb, spawn_r + ready_r + rets, via_blocks=true_bbs)
-                        rep.expect('R01.e', ok, 'run_all-flag-after-spawned', 'did_some_work = true after every task taken from the spawn queue',
-                                   'run_all can run a newly spawned task without recording progress')
-                    else:
-                        sbb, st = sw[0]
-                        adt = core.adts.get('crux_core::capability::executor::RunTask')
-                        names = {v['name']: v['idx'] for v in adt['variants']} if adt else {}
-                        ok = bool(names)
-                        for vn in ('Suspended', 'Completed'):
-                            tgt = None
-                            for v, b in st['arms']:
-                                if v == names.get(vn):
-                                    tgt = b
-                            if tgt is None:
-                                tgt = st['otherwise']
-                            r = f.reachable([tgt], removed_blocks=true_bbs)
-                            if set(r) & set(spawn_r + ready_r + rets):
-                                ok = False
-                        rep.expect('R01.e', ok, 'run_all-flag-after-ready', 'Suspended and Completed set did_some_work before the next read',
-                                   'run_all: a task that ran (Suspended/Completed) does not record progress, so the loop may exit with work queued')
+            E_s = [e for _, es in spawn_reads for e in es]
+            E_r = [e for _, es in ready_reads for e in es]
+
+            def quiescent_after(starts):
+                """no return is reachable from `starts` (path-sensitively in the progress flags) without observing the spawn queue
+                empty again, nor without observing the ready queue empty again"""
+                return not (set(rets) & f.reachable_ps(starts, removed_edges=E_s)) and not (set(rets) & f.reachable_ps(starts, removed_edges=E_r))
+            adt = core.adts.get('crux_core::capability::executor::RunTask')
+            names = {v['name']: v['idx'] for v in adt['variants']} if adt else {}
+            n_sp = n_rd = 0
+            ok_sp = ok_rd = True
+            for rb, rt in runs:
+                res = rt['d']['l']
+                sw = [(bb, t) for bb, t in f.terms('switch') if any(
+                    o.kind == 'rvalue' and o.stmt['rv']['k'] == 'discr' and o.stmt['rv']['a']['l'] == res for o in origins(f, t['a']))]
+                if not sw:
+                    # a task just taken from the spawn queue (its state is not inspected)
+                    n_sp += 1
+                    ok_sp = ok_sp and quiescent_after(f.succ(rb))
+                else:
+                    n_rd += 1
+                    sbb, st = sw[0]
+                    for vn in ('Suspended', 'Completed'):
+                        tgt = next((b_ for v, b_ in st['arms'] if v == names.get(vn)), st['otherwise'])
+                        ok_rd = ok_rd and bool(names) and quiescent_after([tgt])
+            rep.expect('R01.e', n_sp >= 1 and ok_sp, 'run_all-flag-after-spawned',
+                       'after running a newly spawned task, run_all returns only after finding both queues empty again',
+                       'run_all can run a newly spawned task and return without looking at both queues again')
+            rep.expect('R01.e', n_rd >= 1 and ok_rd, 'run_all-flag-after-ready',
+                       'after a woken task ran (Suspended / Completed), run_all returns only after finding both queues empty again',
+                       'run_all: a task that ran (Suspended/Completed) does not force another look at both queues, so the loop may exit with work queued')
     g = single(rep, 'R01.e', core, 'crux_core::command::Command::run_until_settled')
     if g is not None:
         spawn_new = [bb for bb, t in g.calls('crux_core::command::Command::spawn_new_tasks')]
